@@ -139,7 +139,10 @@ Section Manager.
   | OMerge (i j : nat)                  (* UserDbMerger(db i) << DbSource(db j), no snapshot in between *)
   | OUBackup (i s : nat)                (* UserDbHelper(db i).UniformBackup(file s) *)
   | OURestore (i s : nat)               (* UserDbHelper(db i).UniformRestore(file s) *)
-  | OForeign (i : nat).                 (* the user db of installation i now carries another installation's /user_id ("zz"): a db
+  | OForeign (i : nat)
+  | OLeftover (i j : nat).              (* a Restore of j's snapshot by installation i was killed after filling its scratch db:
+                                           <user dir>/.temp.userdb stays behind; Restore removes an existing scratch db first,
+                                           so nothing else changes *)                 (* the user db of installation i now carries another installation's /user_id ("zz"): a db
                                            copied in, or the installation id changed - the next Backup re-creates the metadata *)
 
   Definition uid_of (i : nat) : bytes := x75 :: print_N (N.of_nat i).           (* "u<i>" *)
@@ -212,6 +215,7 @@ Section Manager.
         | None => (w, NOFILE)
         end
     | OForeign i => (set_db w i (meta_update mk_user_id [x7a; x7a] (get_db w i)), 1%Z)
+    | OLeftover i j => match nth j (w_snaps w) None with Some _ => (w, 1%Z) | None => (w, NOFILE) end
     end.
 
   Definition step (w : world) (o : op) : world := fst (step_ret w o).
